@@ -74,8 +74,20 @@ def decThs : Nat → Nat → List Th
   | 0, _ => []
   | k+1, n => decTh (n % thW) :: decThs k (n / thW)
 
+/-- waiter queue, oldest first; each entry one base-64 digit (+1 so that no digit is 0) -/
+def encWq : List Nat → Nat
+  | [] => 0
+  | w :: r => encWq r * 64 + (w + 1)
+
+def decWq : Nat → Nat → List Nat
+  | 0, _ => []
+  | fuel+1, n => if n = 0 then [] else (n % 64 - 1) :: decWq fuel (n / 64)
+
+/-- width of the packed waiter queue (up to 6 waiters) -/
+def wqW : Nat := 2 ^ 36
+
 def enc (s : St) : Nat :=
-  ((((((((encThs s.ths * 8 + s.ths.length) * 8 + s.tstate) * 4 + s.fin) * 8 + ownCode s.lqc) * 8 + ownCode s.lsc) * 8
+  (((((((((encThs s.ths * wqW + encWq s.wq) * 8 + s.ths.length) * 8 + s.tstate) * 4 + s.fin) * 8 + ownCode s.lqc) * 8 + ownCode s.lsc) * 8
     + ownCode s.lwcl) * 4 + s.qlen) * 2 + s.wc.toNat) * 2 + s.flag.toNat
 
 def dec (n : Nat) : St :=
@@ -88,8 +100,9 @@ def dec (n : Nat) : St :=
   let fin := n % 4; let n := n / 4
   let tstate := n % 8; let n := n / 8
   let k := n % 8; let n := n / 8
+  let wq := n % wqW; let n := n / wqW
   { flag := flag == 1, wc := wc == 1, qlen := qlen, lwcl := ownOf lwcl, lsc := ownOf lsc, lqc := ownOf lqc, fin := fin,
-    tstate := tstate, ths := decThs k n }
+    tstate := tstate, wq := decWq 6 wq, ths := decThs k n }
 
 /-- a certificate: groups (one per chunk theorem) of buckets of packed states; a packed state `c` lives in bucket number
     `bucketOf nbk c`, buckets are numbered through the groups -/
